@@ -149,7 +149,7 @@ def eval_header_via(lines, route, after=None, before=0):
             "nontrivial": bool(res["Silent"].get("header", {}).get("errors"))}
 
 
-def eval_header_validate(lines, created="Silent"):
+def eval_header_validate(lines, created="Silent", reset=True):
     """header.validate(stringency) on a header parsed (`created`: Silent or Lenient) from the lines (implementation only):
     the stringency given to validate() is the one that counts, whatever the header was created with."""
     from maflib.header import MafHeader
@@ -162,13 +162,14 @@ def eval_header_validate(lines, created="Silent"):
             return {"req": None, "res": {}, "failures": [], "nontrivial": False, "skipped": exc_name(e)}
         with impl.LogCapture() as lc:
             try:
-                errs = h.validate(validation_stringency=mode)
+                errs = h.validate(validation_stringency=mode, reset_errors=reset)
                 res[mname] = {"errors": impl.errs_json(errs), "value": [[k, str(h[k])] for k in h]}
             except Exception as e:  # noqa
                 res[mname] = {"exc": exc_name(e), "errors": impl.errs_json(h.validation_errors)}
         res[mname]["logs"] = lc.parsed()
     fails = []
-    check_entry(fails, "header validation", {"entry": "header-validate", "lines": lines, "created": created}, res,
+    check_entry(fails, "header validation" + ("" if reset else " (reset_errors=False: the errors collected so far are kept and reported with the new ones)"),
+                dict({"entry": "header-validate", "lines": lines, "created": created}, **({} if reset else {"reset": False})), res,
                 lambda r: r.get("errors") if "exc" not in r or not r["exc"].startswith("MafFormat") else [],
                 lambda r: r.get("value"))
     return {"req": None, "res": res, "failures": fails, "nontrivial": bool(res["Silent"].get("errors"))}
@@ -179,7 +180,7 @@ def _modes():
     return {"Strict": VS.Strict, "Lenient": VS.Lenient, "Silent": VS.Silent}
 
 
-def eval_validate(ann, line, created="Silent"):
+def eval_validate(ann, line, created="Silent", reset=True):
     """record.validate(stringency) on a record parsed (`created`: Silent or Lenient) from the line (implementation only):
     the stringency given to validate() is the one that counts, whatever the record was created with."""
     from maflib.record import MafRecord
@@ -191,13 +192,14 @@ def eval_validate(ann, line, created="Silent"):
             rec = MafRecord.from_line(line, scheme=sch, validation_stringency=impl.MODES[created])
         with impl.LogCapture() as lc:
             try:
-                errs = rec.validate(validation_stringency=mode, scheme=sch)
+                errs = rec.validate(validation_stringency=mode, scheme=sch, reset_errors=reset)
                 res[mname] = {"errors": impl.errs_json(errs), "value": str(rec)}
             except Exception as e:  # noqa
                 res[mname] = {"exc": exc_name(e)}
         res[mname]["logs"] = lc.parsed()
     fails = []
-    check_entry(fails, "record validation", {"entry": "validate", "scheme": ann, "line": line, "created": created}, res,
+    check_entry(fails, "record validation" + ("" if reset else " (reset_errors=False: the errors collected so far are kept and reported with the new ones)"),
+                dict({"entry": "validate", "scheme": ann, "line": line, "created": created}, **({} if reset else {"reset": False})), res,
                 lambda r: r.get("errors") if "exc" not in r or not r["exc"].startswith("MafFormat") else [],
                 lambda r: r.get("value"))
     return {"req": None, "res": res, "failures": fails, "nontrivial": bool(res["Silent"].get("errors"))}
@@ -382,7 +384,7 @@ def entry_point_routes(ctx, out):
         if len(via_reqs) < ctx.scale(120, 800):
             via_reqs.append(e["req"])
             via_answers.append(e["res"])
-        e = eval_header_validate(lines, created=rng.choice(["Silent", "Lenient"]))
+        e = eval_header_validate(lines, created=rng.choice(["Silent", "Lenient"]), reset=rng.random() < 0.7)
         out.evaluations += 3
         out.failures += e["failures"]
         out.distribution["header-route:validate"] += 1
@@ -404,7 +406,7 @@ def validation_and_writer(ctx, out, rng):
     for ann in ["gdc-1.0.0", "gdc-1.0.0-public"]:
         for line in colcases.line_cases(ann, rng, ctx.scale(40, 300)):
             out.evaluations += 3
-            out.failures += eval_validate(ann, line, created=rng.choice(["Silent", "Lenient"]))["failures"]
+            out.failures += eval_validate(ann, line, created=rng.choice(["Silent", "Lenient"]), reset=rng.random() < 0.7)["failures"]
             out.evaluations += 3
             out.failures += eval_write(ann, line)["failures"]
             if rng.random() < 0.3:
@@ -456,7 +458,7 @@ def replay_case(ctx, failure):
         what = "MafHeader.from_line_reader(LineReader(text handle)) over %s%s" % (
             _short(f["lines"], 200), "" if f.get("after") is None else " followed by the line %r" % f["after"])
     elif entry == "header-validate" and "lines" in f:
-        e = eval_header_validate(f["lines"], f.get("created", "Silent"))
+        e = eval_header_validate(f["lines"], f.get("created", "Silent"), reset=f.get("reset", True))
         if e.get("skipped"):
             return None
         what = "MafHeader.from_lines(%s, Silent).validate(stringency)" % _short(f["lines"], 200)
@@ -489,7 +491,7 @@ def replay_case(ctx, failure):
         if impl.scheme_by_annotation(f["scheme"]) is None:
             return None
         if entry == "validate":
-            e = eval_validate(f["scheme"], f["line"], f.get("created", "Silent"))
+            e = eval_validate(f["scheme"], f["line"], f.get("created", "Silent"), reset=f.get("reset", True))
             what = "record.validate(stringency, scheme=%s)" % f["scheme"]
         else:
             channel = f.get("channel", "handle")
